@@ -124,6 +124,8 @@ def run(ctx):
         if not ctx.vec_close(res, want, 50):
             ctx.mismatch("scores are not the average over the completed permutations (with the truncation rule)", case, impl=res, model=ans, spec=[str(x) for x in want])
             continue
+        # the permutation walk translated from this tree's source (truncation rule included), averaged over the permutations that were completed
+        tables.check_translated_walk(ctx, case, exprs, n_units, table, null, mean, tol, T, perms, res, 50)
         if ans is not None and (ans.get("ok") in (None, "nan") or [Fraction(x) for x in ans["ok"]] != want):
             ctx.mismatch("model Ds.MC.run differs from the definition", case, impl=res, model=ans, spec=[str(x) for x in want], failing_input=False,
                          broken="theorems C16_* / corr:Ds.MC.run")
